@@ -10,3 +10,13 @@ open RV.C19
 #print axioms reads_total_on_broken
 #print axioms cyclic_reads_raise
 #print axioms exEmpty_wf
+#print axioms setitem_deviates_iff
+#print axioms setitem_at_len_effect
+#print axioms n3_means_list
+#print axioms coll_separation
+#print axioms history_separation_partial
+#print axioms history_separation_witness
+#print axioms exShared_own_wf
+#print axioms shared_tail_witness
+#print axioms disjoint_second_keeps_list_partial
+#print axioms disjoint_second_keeps_list_witness
